@@ -5,14 +5,19 @@
 package main
 
 import (
+	"encoding/json"
 	"fmt"
 	"math/rand"
+	"net/http"
+	"net/http/httptest"
+	"net/url"
 	"os"
 	"sort"
 	"strings"
 	"time"
 
 	"github.com/pyroscope-io/pyroscope/pkg/config"
+	"github.com/pyroscope-io/pyroscope/pkg/server"
 	"github.com/pyroscope-io/pyroscope/pkg/storage"
 	"github.com/pyroscope-io/pyroscope/pkg/storage/dimension"
 	"github.com/pyroscope-io/pyroscope/pkg/storage/tree"
@@ -238,7 +243,42 @@ func runStore(in *StoreIn) (res lib.Result) {
 		}
 		dimsC = append(dimsC, lib.Pair(bs(n), keyList(d.(*dimension.Dimension).VerifKeys())))
 	}
-	coq := "CStore " + lib.List(opsC) + " " + lib.List(getsC) + " " + strList(keys) + " " + lib.List(valsC) + " " + lib.List(dimsC)
+	// the same listings through the HTTP handlers of pkg/server/labels.go
+	ctrl, err := server.New(cfg, s)
+	if err != nil {
+		return lib.Result{Crash: "server.New: " + err.Error()}
+	}
+	mux := ctrl.VerifMux()
+	httpList := func(path string) ([]string, string) {
+		rec := httptest.NewRecorder()
+		mux.ServeHTTP(rec, httptest.NewRequest(http.MethodGet, path, nil))
+		if rec.Code != 200 {
+			return nil, fmt.Sprintf("GET %s: status %d", path, rec.Code)
+		}
+		var out []string
+		if err := json.Unmarshal(rec.Body.Bytes(), &out); err != nil {
+			return nil, fmt.Sprintf("GET %s: %v", path, err)
+		}
+		return out, ""
+	}
+	hkeys, e := httpList("/labels")
+	if e != "" {
+		return lib.Result{Crash: e}
+	}
+	var hvalsC []string
+	for _, k := range want {
+		if !seen[k] {
+			continue
+		}
+		seen[k] = false
+		vs, e := httpList("/label-values?label=" + url.QueryEscape(k))
+		if e != "" {
+			return lib.Result{Crash: e}
+		}
+		hvalsC = append(hvalsC, lib.Pair(bs(k), strList(vs)))
+	}
+	coq := "CStore " + lib.List(opsC) + " " + lib.List(getsC) + " " + strList(keys) + " " + lib.List(valsC) + " " + lib.List(dimsC) +
+		" " + strList(hkeys) + " " + lib.List(hvalsC)
 	special := false
 	for _, o := range in.Ops {
 		if strings.ContainsAny(o.Put, ":/.") {
